@@ -300,6 +300,9 @@ ares_status_t ares_init_by_options(ares_channel_t            *channel,
     } else {
       channel->timeout = (unsigned int)options->timeout;
     }
+    /* ARES_OPT_TIMEOUTMS takes precedence, the channel records milliseconds
+     * only */
+    optmask &= ~(ARES_OPT_TIMEOUT);
   } else if (optmask & ARES_OPT_TIMEOUT) {
     optmask &= ~(ARES_OPT_TIMEOUT);
     /* Apparently some integrations were passing -1 to tell c-ares to use
